@@ -2,6 +2,7 @@
 from contracts import core
 from pyvc.report import Report
 from .common import run_fragments
+from . import wiring
 
 
 def run(tier, seed):
@@ -10,6 +11,9 @@ def run(tier, seed):
                      'for all inputs, positions and child behaviours, to implement the documented PEG meaning (ok/value/end), '
                      'to report failures consistently with its static flags (G-as, G-cps), to stay in range and to write only its own temporaries.')
     run_fragments(rep, core.CORE, tier)
+    wiring.rule_wrapper_obligations(rep, tier)
+    wiring.a_subst_obligations(rep, tier)
+    wiring.a_uniform_obligations(rep, tier)
     rep.functions.update(['sourcer.expressions.utils.if_succeeds', 'sourcer.expressions.utils.if_fails',
                           'sourcer.expressions.utils.breakable', 'sourcer.expressions.utils.skip_ignored',
                           'sourcer.expressions.base.Expression.compile'])
